@@ -56,8 +56,8 @@ def generate(tier, seed, shard, nshards):
         else:
             ms = list(range(lo, hi))
         yield {'kind': 'float-exhaustive', 'p': p, 'decade': d, 'table': tname, 'mantissas': [ms[0], ms[-1], len(ms)], 'ms': ms}
-    # rounding-carry stratum: values just below a power of ten that round UP into the next decade at p digits, p = 1..9
-    cj = [(pp, d, tname) for pp in range(1, 10) for d in range(-15, 16) for tname in TABLES]
+    # rounding-carry stratum: values just below a power of ten that round UP into the next decade at p digits, and short mantissas padded with zeros, p = 1..15
+    cj = [(pp, d, tname) for pp in range(1, 16) for d in range(-15, 16) for tname in TABLES]
     rng2.shuffle(cj)
     for k, (pp, d, tname) in enumerate(cj):
         if k % nshards == shard and (tier == 'thorough' or k % 3 == 0 or d in (-1, 0, 1)):
@@ -65,6 +65,8 @@ def generate(tier, seed, shard, nshards):
     n_rand = {'quick': 40, 'thorough': 900}[tier]
     for _ in range(n_rand // nshards + 1):
         yield {'kind': 'float-random', 'p': rng.randint(1, 6), 'table': rng.choice(list(TABLES)), 'seed': rng.getrandbits(32)}
+    for _ in range({'quick': 16, 'thorough': 320}[tier] // nshards + 1):      # the statement says every p >= 1: precisions 7..12
+        yield {'kind': 'float-random', 'p': rng.randint(7, 12), 'table': rng.choice(list(TABLES)), 'seed': rng.getrandbits(32)}
     n_c = {'quick': 60, 'thorough': 1200}[tier]
     for _ in range(n_c // nshards + 1):
         yield {'kind': 'complex', 'p': rng.randint(1, 6), 'table': rng.choice(list(TABLES)), 'seed': rng.getrandbits(32),
@@ -190,6 +192,7 @@ def judge(case, ctx, prefix='C18'):
         vals.append(float(f'{"9" * p}4e{dcd - p}'))                   # just below the tie: must NOT carry
         one = float(f'1e{dcd + 1}')
         vals += [float(np.nextafter(one, -math.inf)), one]
+        vals += [float(f'{m}e{dcd}') for m in (2, 5, 1.5, 1.25, 9)]           # short mantissas padded with zeros up to p digits
         for v in vals:
             for sg in (1, -1):
                 judge_real(ctx, prefix, render_float(sg * v, p, 'V', tbl), sg * v, p, 'V', tbl, 'float', tbl is not None)
